@@ -161,7 +161,7 @@ func (p *c09) twin(text string, opt bool, names []string, need int64) *c09Twin {
 		p.twins[key] = t
 		return t
 	}
-	t.res = doExecute(e, nil)
+	under(ctx, func() { t.res = doExecute(e, nil) })
 	t.trace = h.Trace
 	t.vars = showVars(e, names)
 	t.ticks = ctx.Clock
@@ -254,16 +254,18 @@ func (p *c09) Run(c *verifsim.Chooser, st *Stats, render bool) *Outcome {
 		return o
 	}
 	var r Result
-	if useRun {
-		r = doRun(e, nil)
-	} else {
-		r = doExecute(e, nil)
-	}
+	under(ctx, func() {
+		if useRun {
+			r = doRun(e, nil)
+		} else {
+			r = doExecute(e, nil)
+		}
+	})
 	o.Ticks = ctx.Clock
 	vars := showVars(e, names)
 	fired := ctx.Fired() && !ctx.HitCap
 	o.Digest.Str(r.String())
-	o.Digest.U64(uint64(ctx.Polls))
+	o.Digest.U64(uint64(ctx.Ticks))
 	o.Digest.Str(joinTrace(h.Trace))
 
 	if render {
@@ -271,7 +273,7 @@ func (p *c09) Run(c *verifsim.Chooser, st *Stats, render bool) *Outcome {
 			"script": text, "family": family, "optimizer": opt, "front_end": map[bool]string{true: "Run", false: "Execute"}[useRun],
 			"plan":   []string{"never", "cancel-at-clock", "already-expired", "cancel-inside-host-call", "deadline+slow-host"}[plan],
 			"k":      k, "host_call": hostCall, "slow_ticks": slow,
-			"result": r.String(), "polls": ctx.Polls, "polls_after_cancel": ctx.PollsAfter, "host_calls": h.Calls,
+			"result": r.String(), "ticks": ctx.Ticks, "context_polls": ctx.Polls, "ticks_after_cancel": ctx.TicksAfter, "host_calls": h.Calls,
 			"twin_result": tw.res.String(), "twin_ticks": tw.ticks,
 		}
 	}
@@ -298,7 +300,7 @@ func (p *c09) Run(c *verifsim.Chooser, st *Stats, render bool) *Outcome {
 	if h.Runaway || ctx.HitCap || ctx.Runaway {
 		switch {
 		case plan != 0:
-			o.violate("C09/not-stopped", family, "cancellation planned (plan=%d k=%d call=%d); fired=%v; the script kept running: %d polls and %d host calls after the instant", plan, k, hostCall, ctx.Fired(), ctx.PollsAfter, h.CallsAfterCancel)
+			o.violate("C09/not-stopped", family, "cancellation planned (plan=%d k=%d call=%d); fired=%v; the script kept running: %d ticks and %d host calls after the instant", plan, k, hostCall, ctx.Fired(), ctx.TicksAfter, h.CallsAfterCancel)
 		case tw.ticks >= 0:
 			o.violate("C09/disturbed", family, "run without cancellation did not end although its twin did")
 		}
@@ -316,10 +318,10 @@ func (p *c09) Run(c *verifsim.Chooser, st *Stats, render bool) *Outcome {
 		}
 		return o
 	}
-	st.max("polls_after_cancel", ctx.PollsAfter)
+	st.max("ticks_after_cancel", ctx.TicksAfter)
 	st.max("host_calls_after_cancel", int64(h.CallsAfterCancel))
-	if ctx.PollsAfter > c09B {
-		o.violate("C09/late", family, "%d polls after the cancellation instant", ctx.PollsAfter)
+	if ctx.TicksAfter > c09B {
+		o.violate("C09/late", family, "%d ticks after the cancellation instant", ctx.TicksAfter)
 	}
 	if same {
 		// the cancellation came when the script was already done
@@ -328,7 +330,7 @@ func (p *c09) Run(c *verifsim.Chooser, st *Stats, render bool) *Outcome {
 	}
 	// O1/O4: cut short => an error is reported through either front end
 	if !r.Failed {
-		o.violate("C09/not-reported", family, "cancelled at poll %d, outcome differs from the uncancelled twin (%s), but %s returned no error: %s", ctx.FiredAt, tw.res.String(), map[bool]string{true: "Run", false: "Execute"}[useRun], r.String())
+		o.violate("C09/not-reported", family, "cancelled at tick %d, outcome differs from the uncancelled twin (%s), but %s returned no error: %s", ctx.FiredAt, tw.res.String(), map[bool]string{true: "Run", false: "Execute"}[useRun], r.String())
 	}
 	if useRun && r.Truth {
 		o.violate("C09/not-reported", family, "Run returned true together with an error")
